@@ -217,7 +217,7 @@ qrnzcnt(int_t neqns, int_t adjlen, int_t *xadj, int_t *adjncy, int_t *zfdperm,
 	    }
 	}
     }
-    part_super_h[xsup] = neqns - xsup;
+    if ( neqns > 0 ) part_super_h[xsup] = neqns - xsup;
 
 #ifdef CHK_NZCNT
     printf("%8s%8s%8s\n", "k", "fnz", "first");
@@ -406,7 +406,7 @@ qrnzcnt(int_t neqns, int_t adjlen, int_t *xadj, int_t *adjncy, int_t *zfdperm,
 	    colcnt_h[parent] += temp;	    
 	}
     }
-    part_super_ata[xsup] = neqns - xsup;
+    if ( neqns > 0 ) part_super_ata[xsup] = neqns - xsup;
 
     /* Fix the supernode partition in H. */
     
